@@ -1,23 +1,20 @@
 import BfeVerif.C55.Proofs
 /-!
   C55 — FastCGI requests and responses are encoded faithfully.  Property theorems only.
-
-  Full-strength request statement (FALSE for the code as it is, see the two witnesses):
-    `ParamsRoundTrip` : for every parameter list (= map in iteration order) and body, `Do` writes bytes that a
-    FastCGI 1.0 application decodes to exactly these parameters and this body.
+  (After fix c874d7d the request statement holds at full strength; the earlier witnesses — a 65493-byte value cut to
+  65492 bytes, a 65493-byte name panicking — are kept in corpus/C55 and now pass.)
 -/
 namespace BfeVerif.C55
 
-def ParamsRoundTrip : Prop :=
-  ∀ (pairs : List (Bytes × Bytes)) (body : Bytes),
-    (encodeRequest pairs body).bind decodeRequest = some ⟨pairs, body⟩
-
-/-- What the code really does, for EVERY input on which it does not panic: the application decodes the
-    parameters with each value cut to `65500-8-|k|` bytes (`truncPair`), and the body unchanged. -/
-theorem C55_request_decodes (pairs : List (Bytes × Bytes)) (body bs : Bytes)
-    (h : encodeRequest pairs body = some bs) :
-    decodeRequest bs = some ⟨pairs.map truncPair, body⟩ := by
-  obtain ⟨init, e2, e3, e4, _, hparse⟩ := request_parse pairs body bs h
+/-- **C55_params_rt** (full strength): for EVERY parameter list (= the map in any iteration order) with names and values
+    shorter than 2^31 bytes (the range of `encodeSize`'s uint32 with the marker bit) and EVERY body, the bytes `Do`
+    writes are decoded by an independent FastCGI 1.0 decoder (record layer, BEGIN_REQUEST{responder}, PARAMS and STDIN
+    streams each closed by exactly one empty record, name-value pairs) to exactly these parameters, in this order,
+    and this body — whatever the lengths: pairs larger than a record span several records. -/
+theorem C55_params_rt (pairs : List (Bytes × Bytes)) (body : Bytes)
+    (hlen : ∀ p ∈ pairs, p.1.length < 2147483648 ∧ p.2.length < 2147483648) :
+    decodeRequest (encodeRequest pairs body) = some ⟨pairs, body⟩ := by
+  obtain ⟨init, e2, e3, _, hparse⟩ := request_parse pairs body
   obtain ⟨b1, b2⟩ := streamWrite_spec body
   unfold decodeRequest
   rw [hparse]
@@ -27,56 +24,24 @@ theorem C55_request_decodes (pairs : List (Bytes × Bytes)) (body bs : Bytes)
         (fun r => r.id == (toRec 1 ((1 : UInt8), beginBody)).id && (r.typ == 4 || r.typ == 5)) = true := by
     refine ⟨rfl, rfl, by simp [toRec], ?_⟩
     simpa [toRec] using restRecs_all (init ++ [[]]) (streamWrite body ++ [[]])
-  have hbound : ∀ p ∈ pairs.map truncPair, p.1.length < 2147483648 ∧ p.2.length < 2147483648 := by
-    intro p hp
-    obtain ⟨q, hq, rfl⟩ := List.mem_map.mp hp
-    have hb := truncVal_bound q.1 q.2 (e4 q hq)
-    simp only [truncPair, maxWrite] at hb ⊢
-    omega
   simp only []
   rw [if_pos hc, restRecs_params _ _ e2, restRecs_body _ _ b2]
   simp only [e3, b1]
-  rw [decPairs_enc _ hbound _ (Nat.le_refl _)]
+  rw [decPairs_enc _ hlen _ (Nat.le_refl _)]
 
-/-- **C55_params_rt (partial)**: when every pair satisfies `8+|k|+|v| ≤ 65500`, the request is written without
-    panic and decodes (FastCGI 1.0 decoder) to exactly the parameters, in the map's iteration order, and the body. -/
-theorem C55_params_rt_partial (pairs : List (Bytes × Bytes)) (body : Bytes)
-    (hsz : ∀ p ∈ pairs, 8 + p.1.length + p.2.length ≤ maxWrite) :
-    (encodeRequest pairs body).bind decodeRequest = some ⟨pairs, body⟩ := by
-  have hnp : ∀ p ∈ pairs, panics p.1 p.2 = false := by
-    intro p hp; have := hsz p hp; simp [panics]; omega
-  have hsome := wpl_isSome pairs hnp 0 [] []
-  cases hw : writePairsLoop pairs 0 [] [] with
-  | none => simp [hw] at hsome
-  | some ps =>
-    have he : ∃ bs, encodeRequest pairs body = some bs := by simp [encodeRequest, requestRecords, hw]
-    obtain ⟨bs, hbs⟩ := he
-    rw [hbs, Option.bind_some, C55_request_decodes pairs body bs hbs]
-    have : pairs.map truncPair = pairs := by
-      rw [List.map_congr_left (g := id)]
-      · simp
-      · intro p hp
-        have := hsz p hp
-        simp only [truncPair, truncVal, id]
-        rw [if_neg (by omega)]
-    rw [this]
+/-- **C55_body_rt**: the STDIN stream decodes to exactly the body, for any size. -/
+theorem C55_body_rt (pairs : List (Bytes × Bytes)) (body : Bytes)
+    (hlen : ∀ p ∈ pairs, p.1.length < 2147483648 ∧ p.2.length < 2147483648) :
+    (decodeRequest (encodeRequest pairs body)).map (·.body) = some body := by
+  rw [C55_params_rt pairs body hlen]; rfl
 
-/-- **C55_body_rt**: whenever the request is written at all, the STDIN stream decodes to exactly the body (any size). -/
-theorem C55_body_rt (pairs : List (Bytes × Bytes)) (body bs : Bytes)
-    (h : encodeRequest pairs body = some bs) : (decodeRequest bs).map (·.body) = some body := by
-  rw [C55_request_decodes pairs body bs h]; rfl
-
-/-- **C55_record_bound**: every record `Do` writes has at most 65500 (≤ 65535) content bytes, so the 16-bit
-    length field of `frame` is exact; and the bytes are exactly these records back to back. -/
-theorem C55_record_bound (pairs : List (Bytes × Bytes)) (body : Bytes) (rs : List (UInt8 × Bytes))
-    (h : requestRecords pairs body = some rs) : ∀ r ∈ rs, r.2.length ≤ 65535 := by
-  have he : encodeRequest pairs body = some (rs.map fun r => frame r.1 1 r.2).flatten := by
-    simp [encodeRequest, h]
-  obtain ⟨init, e2, _, _, hr, _⟩ := request_parse pairs body _ he
+/-- **C55_record_bound**: every record `Do` writes has at most 65500 (≤ 65535) content bytes, so the 16-bit length
+    field of `frame` is exact — also when one name-value pair is larger than the bufio buffer. -/
+theorem C55_record_bound (pairs : List (Bytes × Bytes)) (body : Bytes) :
+    ∀ r ∈ requestRecords pairs body, r.2.length ≤ 65535 := by
+  obtain ⟨init, e2, _, hr, _⟩ := request_parse pairs body
   obtain ⟨_, b2⟩ := streamWrite_spec body
-  rw [h] at hr
-  simp only [Option.some.injEq] at hr
-  subst hr
+  rw [hr]
   intro r hr
   simp only [List.mem_cons, List.mem_append, List.mem_map] at hr
   rcases hr with rfl | ⟨c, hc, rfl⟩ | ⟨c, hc, rfl⟩
@@ -90,30 +55,13 @@ theorem C55_record_bound (pairs : List (Bytes × Bytes)) (body : Bytes) (rs : Li
     · subst h; simp
     · simp at h
 
-/-- **C55_witness_trunc**: the full statement is false — a 65493-byte value under an empty name arrives cut
-    to 65492 bytes (silently; the request is still well-formed). -/
-theorem C55_witness_trunc : ¬ ParamsRoundTrip := by
-  intro hrt
-  have h := hrt [([], big)] []
-  have hsome := wpl_isSome [(([] : Bytes), big)]
-    (by intro p hp; simp at hp; subst hp; simp [panics, maxWrite]) 0 [] []
-  cases hw : writePairsLoop [(([] : Bytes), big)] 0 [] [] with
-  | none => simp [hw] at hsome
-  | some ps =>
-    have he : ∃ bs, encodeRequest [(([] : Bytes), big)] [] = some bs := by
-      simp [encodeRequest, requestRecords, hw]
-    obtain ⟨bs, hbs⟩ := he
-    rw [hbs, Option.bind_some, C55_request_decodes _ _ bs hbs] at h
-    simp only [Option.some.injEq, Req.mk.injEq, and_true, List.map_cons, List.map_nil, List.cons.injEq,
-      truncPair, Prod.mk.injEq, true_and] at h
-    have hl := congrArg List.length h
-    rw [truncVal, if_pos (by simp [big_length, maxWrite])] at hl
-    simp only [List.length_take, List.length_nil, big_length, maxWrite] at hl
-    omega
-
-/-- **C55_witness_panic**: a 65493-byte parameter name makes `writePairs` evaluate `v[:-1]` — a runtime panic. -/
-theorem C55_witness_panic : encodeRequest [(big, [])] [] = none := by
-  simp [encodeRequest, requestRecords, writePairsLoop, panics, maxWrite, big_length]
+/-- **C55_writer_stream**: the statement-level model of writePairs over the 65500-byte bufio.Writer (Write with the
+    large-write shortcut, WriteString, Flush when the counter passes 65500) hands the sink exactly the concatenated
+    encoded pairs, in order, whatever their sizes; and `Write(body)` + Close yields `streamWrite body ++ [[]]`. -/
+theorem C55_writer_stream (pairs : List (Bytes × Bytes)) (body : Bytes) :
+    (writePairsBW pairs 0 ⟨[], []⟩).stream = (pairs.map fun p => encPair p.1 p.2).flatten ∧
+    (bodyBW body).records = streamWrite body ++ [[]] :=
+  ⟨by simpa [BW.stream] using (writePairsBW_spec pairs 0 ⟨[], []⟩ (by simp [BW.Inv])).2, bodyBW_records body⟩
 
 /-! ### the CGI environment built by Transport.RoundTrip (`envLog` replays buildMetaValsAndMethod's Add/Set calls) -/
 
@@ -136,8 +84,8 @@ theorem C55_env_protected (i : RtIn) (hdrs' : List (Bytes × List Bytes)) (k : B
       intro j hj
       unfold envLog
       rw [lookup_append]
-      have a1 : ¬ kREQUEST_METHOD = kCONTENT_LENGTH := by decide
-      have a2 : ¬ kCONTENT_TYPE = kCONTENT_LENGTH := by decide
+      have a1 : ¬ kREQUEST_METHOD = kCONTENT_LENGTH := by simp [kREQUEST_METHOD, kCONTENT_LENGTH]
+      have a2 : ¬ kCONTENT_TYPE = kCONTENT_LENGTH := by simp [kCONTENT_TYPE, kCONTENT_LENGTH]
       simp only [finalOps, List.foldl_cons, List.foldl_nil, step, a1, a2, if_false, if_true, hj]
     rw [this i rfl, this { i with hdrs := hdrs' } rfl]
   · exact env_core i hdrs' k hcl hct (hno i) (hno _)
@@ -146,15 +94,8 @@ theorem C55_env_protected (i : RtIn) (hdrs' : List (Bytes × List Bytes)) (k : B
     (any case) never creates or changes it, and no other header name maps to it. -/
 theorem C55_env_no_httpoxy (i : RtIn) :
     lookup kHTTP_PROXY (envLog i) = lookup kHTTP_PROXY (envLog { i with hdrs := [] }) :=
-  env_core i [] kHTTP_PROXY (by decide) (by decide) (hdrOps_not_proxy i) (hdrOps_not_proxy _)
-
-/-- the request writer of the model is the statement-by-statement bufio model: `writePairsBW` (Write / WriteString /
-    Flush on a 65500-byte bfe_bufio.Writer whose sink calls become records) produces exactly the records of
-    `writePairsLoop`, and one `Write(body)` + Close exactly `streamWrite body ++ [[]]`. -/
-theorem C55_bufio_refines (pairs : List (Bytes × Bytes)) (body : Bytes) :
-    (writePairsBW pairs 0 ⟨[], []⟩).map BW.records = writePairsLoop pairs 0 [] [] ∧
-    (bodyBW body).records = streamWrite body ++ [[]] :=
-  ⟨by simpa using writePairsBW_eq pairs 0 ⟨[], []⟩ rfl (by simp [maxWrite]), bodyBW_records body⟩
+  env_core i [] kHTTP_PROXY (by simp [kHTTP_PROXY, kCONTENT_LENGTH]) (by simp [kHTTP_PROXY, kCONTENT_TYPE])
+    (hdrOps_not_proxy i) (hdrOps_not_proxy _)
 
 /-! ### response side -/
 
@@ -184,17 +125,16 @@ theorem C55_witness_stderr : ¬ StdoutOnly := by
   let recs : List (UInt8 × Bytes) := [(7, [69]), (3, [0, 0, 0, 0, 0, 0, 0, 0])]
   have hp : parse ((recs.map fun r => frame r.1 1 r.2).flatten) = some (recs.map (toRec 1)) :=
     parseRecs_frames 1 (by omega) recs (by intro r hr; simp [recs] at hr; rcases hr with rfl | rfl <;> simp) _ (Nat.le_refl _)
-  have he : hasEnd (recs.map (toRec 1)) = true := by decide
+  have he : hasEnd (recs.map (toRec 1)) = true := by simp [hasEnd, recs, toRec]
   have h1 := h _ _ hp he
   rw [C55_response_stream _ _ hp he] at h1
   have h2 := congrArg Prod.fst h1
-  revert h2
-  decide
+  simp [allBeforeEnd, stdoutOf, recs, toRec] at h2
 
-/-! non-vacuity: a concrete request that meets the hypotheses and decodes -/
-example : (encodeRequest [([65], [66, 67])] [1, 2, 3]).bind decodeRequest = some ⟨[([65], [66, 67])], [1, 2, 3]⟩ :=
-  C55_params_rt_partial _ _ (by intro p hp; simp at hp; subst hp; simp [maxWrite])
+/-! a concrete request -/
 example : encodeRequest [] [] =
-    some [1, 1, 0, 1, 0, 8, 0, 0, 0, 1, 0, 0, 0, 0, 0, 0,  1, 4, 0, 1, 0, 0, 0, 0,  1, 5, 0, 1, 0, 0, 0, 0] := by rfl
+    [1, 1, 0, 1, 0, 8, 0, 0, 0, 1, 0, 0, 0, 0, 0, 0,  1, 4, 0, 1, 0, 0, 0, 0,  1, 5, 0, 1, 0, 0, 0, 0] := by rfl
+/-- an empty read ends the body copy (bfe_bufio.Writer.ReadFrom): ABCD read as 2 bytes, (0,nil), 2 bytes -> AB -/
+example : bodyDelivered [65, 66, 67, 68] [2, 0, 2] = [65, 66] := by decide
 
 end BfeVerif.C55
